@@ -7,3 +7,4 @@ import JaxVerif.Properties.C16
 #print axioms JV.C16_usable
 #print axioms JV.C16_generated_good
 #print axioms JV.C16_facts_matter
+#print axioms JV.C16_source_label
